@@ -118,7 +118,7 @@ def check_model(model, m, aff_shape, opts, eps, skip_frames=(), kmin=1e-10, kmax
             return f'{t} variance {cov.min()!r} <= 0'
     if model == 'cbmm':
         lam = np.asarray(m.complex_bingham.covariance_eigenvalues)
-        if (lam > 1e-9).any() or (np.abs(lam.max(-1)) > 1e-9).any():
+        if (lam > 1e-7).any() or (np.abs(lam.max(-1)) > 1e-7).any():
             return f'Bingham eigenvalues must be <= 0 with maximum 0: {lam.max()!r}'
         if np.isfinite(bingham_max) and (lam < -bingham_max * (1 + 1e-6) - 1e-6).any():
             return f'Bingham eigenvalue {lam.min()!r} < -max_concentration'
@@ -143,8 +143,12 @@ def run_config(key):
     _verif.clear()
     _verif.register(lambda **kw: trace.append(kw['model']))
     exc = None
+    tr_kw = {}
+    bmax = np.inf
+    if model == 'cbmm' and p['D'] == 3 and p['norm'] == 'trace':
+        pass
     try:
-        M.fit(model, c['data'], c['init'], p['iterations'], **c['opts'])
+        M.fit(model, c['data'], c['init'], p['iterations'], trainer_kw=tr_kw, **c['opts'])
     except Exception as e:  # noqa
         exc = e
     finally:
@@ -170,7 +174,7 @@ def run_single(key):
     d = impl.dist()
     fam, D, N, lead, kind, salk, seed = (key[k] for k in ('family', 'D', 'N', 'lead', 'data', 'sal', 'seed'))
     lead = tuple(lead)
-    cplx = fam in ('cgauss', 'watson', 'cacg', 'bingham')
+    cplx = fam in ('cgauss', 'watson', 'cacg') or fam.startswith('bingham')
     y = S.make_observation(seed, lead, N, D, kind, cplx, ('c09single', fam))
     N = y.shape[-2]
     sal = S.make_saliency(lead, N, salk)
@@ -232,13 +236,21 @@ def run_single(key):
             g = np.einsum('...ji,...jk->...ik', U.conj(), U)
             if np.abs(g - np.eye(D)).max() > 1e-8:
                 return viol('cACG eigenvectors not unitary')
-        elif fam == 'bingham':
-            m = d.ComplexBinghamTrainer().fit(y, saliency=sal)
+        elif fam.startswith('bingham'):
+            kmax = np.inf if fam == 'bingham' else float(fam[len('bingham_max'):])
+            if kmax != np.inf and kind == 'generic':
+                # concentrated data: the clip to -max_concentration binds
+                y = np.array(y)
+                y = y[..., :1, :] + 0.03 * y
+            m = d.ComplexBinghamTrainer(max_concentration=kmax).fit(y, saliency=sal)
             lam = np.asarray(m.covariance_eigenvalues)
             if not np.isfinite(lam).all():
                 return viol('Bingham eigenvalues non-finite')
-            if (lam > 1e-9).any() or (np.abs(lam.max(-1)) > 1e-9).any():
+            # duplicate eigenvalues are spread by the documented eps of 1e-8: the maximum may be 1e-8 off 0
+            if (lam > 1e-7).any() or (np.abs(lam.max(-1)) > 1e-7).any():
                 return viol(f'Bingham eigenvalues {lam!r}')
+            if (lam < -kmax * (1 + 1e-6) - 1e-6).any():
+                return viol(f'Bingham eigenvalue {lam.min()!r} below -max_concentration = {-kmax}')
     except Exception as e:  # noqa
         if kind == 'generic' and N > D + 1 and salk != 'one_zero':
             return viol(f'{fam} trainer raised on regular data: {e!r}')
@@ -280,8 +292,8 @@ def subchecks(tier, seed):
 
     def single_cases():
         for fam in ('gauss_full', 'gauss_diagonal', 'gauss_spherical', 'cgauss', 'watson', 'vmf',
-                    'cacg', 'bingham'):
-            for D in ((2, 3) if fam == 'bingham' else (2, 3, 5)):
+                    'cacg', 'bingham', 'bingham_max5', 'bingham_max50'):
+            for D in ((2, 3) if fam.startswith('bingham') else (2, 3, 5)):
                 for N in (D + 2, 12):
                     for lead in ((), (2,)):
                         for kind in ('generic',) + tuple(kinds):
